@@ -143,11 +143,15 @@ impl Root {
         tracker.create_dependency_link(self, current);
 
         let mut nodes_mut = self.nodes.borrow_mut();
-        nodes_mut[current].callback = Some(callback); // Put the callback back in.
-        nodes_mut[current].value = Some(value);
+        // The node may have been disposed by its own callback.
+        let Some(node) = nodes_mut.get_mut(current) else {
+            return;
+        };
+        node.callback = Some(callback); // Put the callback back in.
+        node.value = Some(value);
 
         // Mark this node as clean.
-        nodes_mut[current].state = NodeState::Clean;
+        node.state = NodeState::Clean;
         drop(nodes_mut);
 
         if changed {
@@ -158,7 +162,11 @@ impl Root {
     // Mark any dependent node of the current node as dirty.
     fn mark_dependents_dirty(&self, current: NodeId) {
         let mut nodes_mut = self.nodes.borrow_mut();
-        let dependents = std::mem::take(&mut nodes_mut[current].dependents);
+        // The node may have been disposed in the meantime (e.g. inside a batch).
+        let Some(node) = nodes_mut.get_mut(current) else {
+            return;
+        };
+        let dependents = std::mem::take(&mut node.dependents);
         for &dependent in &dependents {
             if let Some(dependent) = nodes_mut.get_mut(dependent) {
                 dependent.state = NodeState::Dirty;
@@ -293,12 +301,19 @@ pub(crate) struct DependencyTracker {
 impl DependencyTracker {
     /// Sets the `dependents` field for all the nodes that have been tracked and updates
     /// `dependencies` of the `dependent`.
-    pub fn create_dependency_link(self, root: &Root, dependent: NodeId) {
+    pub fn create_dependency_link(mut self, root: &Root, dependent: NodeId) {
+        let mut nodes = root.nodes.borrow_mut();
+        // The dependent may have been disposed while it was running.
+        if nodes.get(dependent).is_none() {
+            return;
+        }
+        // A tracked node may have been disposed after it was read.
+        self.dependencies.retain(|node| nodes.get(*node).is_some());
         for node in &self.dependencies {
-            root.nodes.borrow_mut()[*node].dependents.push(dependent);
+            nodes[*node].dependents.push(dependent);
         }
         // Set the signal dependencies so that it is updated automatically.
-        root.nodes.borrow_mut()[dependent].dependencies = self.dependencies;
+        nodes[dependent].dependencies = self.dependencies;
     }
 }
 
